@@ -44,6 +44,7 @@ structure Env where
   owned : List Id                      -- `get_resource_handlers(resource)`
   subs : List Id                       -- ids of sub-handlers that may carry records (a PATCH can purge them)
   sel : C05.Cause → List Id            -- `get_handlers(cause)`: gate + filters
+  initialH : Id → Bool                 -- `handler.initial`: a resuming handler (`@kopf.on.resume`)
   limits : Id → C02.Limits
   lifecycle : C02.Lifecycle
   exec : Id → Nat → C02.Outcome        -- what invoking handler `i` with `retry = n` yields
@@ -69,6 +70,8 @@ structure State (E : Type) where
   gone : Bool              -- the object does not exist any more
   noticed : Bool           -- `memory.noticed_by_listing`
   fullyHandled : Bool      -- `memory.fully_handled_once`
+  resumed : List Id        -- `memory.resumed_handlers`: resuming handlers that reached a final outcome for the
+                           -- object in this process while its cycle is still open (repo fix 6c4463d)
   now : Tick
   pending : Bool           -- a watch event (listing, echo of the last PATCH, or touch) is waiting
   writes : Nat             -- PATCH requests issued by the framework so far
@@ -81,10 +84,18 @@ def causeOf (s : State E) : C05.Cause :=
                oldAbsent := s.base.isNone, diffNonEmpty := decide (s.base ≠ some s.ess),
                initial := s.noticed && !s.fullyHandled }
 
+/-- the handler still has to reach a final outcome -/
+def unfin (P : C02.Store) (i : Id) : Bool :=
+  match P i with | some r => !r.finished | none => true
+
+/-- `cause_handlers`: the registry's selection for the cause, without the resuming handlers that have
+    already finished for this object in this process -/
+def selOf (env : Env) (s : State E) : List Id :=
+  (env.sel (causeOf s)).filter (fun i => !(env.initialH i && s.resumed.contains i))
+
 def cfgOf (env : Env) (s : State E) : C02.Cfg :=
-  let c := causeOf s
-  { owned := env.owned, selected := env.sel c, limits := env.limits,
-    reason := C14.reasonStr c.reason, lifecycle := env.lifecycle }
+  { owned := env.owned, selected := selOf env s, limits := env.limits,
+    reason := C14.reasonStr (causeOf s).reason, lifecycle := env.lifecycle }
 
 /-- the handling pass of this event (handlers are instantaneous: both clock readings coincide) -/
 def pass (env : Env) (s : State E) : C02.CycleResult :=
@@ -123,10 +134,17 @@ def changedOf (env : Env) (s : State E) : Bool :=
   (ids env).any (fun i => (pass env s).P' i != s.P i) ||
     decide ((if (pass env s).closed then some s.ess else s.base) ≠ s.base)
 
+/-- `memory.resumed_handlers` after the pass: the selected resuming handlers that got a final outcome in it
+    are added; the set is dropped when the cycle closes -/
+def resumedAfter (env : Env) (s : State E) : List Id :=
+  if (pass env s).closed then []
+  else s.resumed ++ (selOf env s).filter (fun i => env.initialH i && unfin s.P i && !unfin (pass env s).P' i)
+
 /-- the state after a turn that ran the handling pass -/
 def nextState (env : Env) (s : State E) (now' : Tick) (pend : Bool) (w : Nat) : State E :=
   { s with P := (pass env s).P', base := (if (pass env s).closed then some s.ess else s.base),
-           fullyHandled := (s.fullyHandled || (pass env s).closed), now := now', pending := pend, writes := w }
+           fullyHandled := (s.fullyHandled || (pass env s).closed),
+           resumed := resumedAfter env s, now := now', pending := pend, writes := w }
 
 /-- A turn in which `process_changing_cause` is reached and the object is not released: the pass, then
     `application.apply` (as of repo fix 7224f57): a patch that CHANGED the object → its echo is the next
@@ -173,7 +191,7 @@ def iter (env : Env) : Nat → State E → State E
     empty, the object (if it still exists) is seen in the initial listing. What the object carries
     (`P`, `base`, deletion mark, finalizer) is whatever the server holds; the clock has moved on. -/
 def restart (s : State E) (t : Tick) : State E :=
-  { s with noticed := true, fullyHandled := false, now := t, pending := !s.gone }
+  { s with noticed := true, fullyHandled := false, resumed := [], now := t, pending := !s.gone }
 
 /-! ### the environment as an adversary: histories -/
 
@@ -202,7 +220,7 @@ def runActs (env : Env) (s : State E) (acts : List (Act E)) : State E := acts.fo
 /-- a freshly created object nobody has handled yet, its ADDED event pending -/
 def created (e : E) (t : Tick) : State E :=
   { P := fun _ => none, base := none, ess := e, marked := false, blocked := false, gone := false,
-    noticed := false, fullyHandled := false, now := t, pending := true, writes := 0 }
+    noticed := false, fullyHandled := false, resumed := [], now := t, pending := true, writes := 0 }
 
 /-- external edits while no operator runs: only the essence moves -/
 def applyEdits (s : State E) (es : List E) : State E :=
@@ -246,10 +264,6 @@ def Uniform (env : Env) (s : State E) : Prop :=
 def awakeP (P : C02.Store) (now : Tick) (i : Id) : Bool :=
   match P i with | some r => r.awakened now | none => true
 
-/-- the handler still has to reach a final outcome -/
-def unfin (P : C02.Store) (i : Id) : Bool :=
-  match P i with | some r => !r.finished | none => true
-
 /-- keepalive rounds still needed before the handler's delay can be slept in one piece -/
 def slack (cap : Tick) (P : C02.Store) (now : Tick) (i : Id) : Nat :=
   match P i with
@@ -268,7 +282,7 @@ def isHandler (s : State E) : Bool := C02.handlerReasons.contains (C14.reasonStr
 
 /-- `state.extras` is non-empty: some stored record carries a superseded purpose -/
 def extrasOf (env : Env) (s : State E) : Bool :=
-  C02.hasExtras (C02.withHandlers (C02.fromStorage s.P env.owned) (env.sel (causeOf s))
+  C02.hasExtras (C02.withHandlers (C02.fromStorage s.P env.owned) (selOf env s)
     (C14.reasonStr (causeOf s).reason) s.now) (C02.known (cfgOf env s)) (C14.reasonStr (causeOf s).reason)
 
 /-- this turn only adjusts the finalizer (adds it, or removes the one nobody needs) -/
@@ -282,9 +296,9 @@ def adjusting (env : Env) (s : State E) : Bool :=
 def core (env : Env) (s : State E) : Nat :=
   if !env.prematch then 1
   else if !isHandler s then (if changedOf env s then 2 else 1)
-  else 2 * Uv (env.sel (causeOf s)) s.P + Av (env.sel (causeOf s)) s.P s.now
+  else 2 * Uv (selOf env s) s.P + Av (selOf env s) s.P s.now
        + (if extrasOf env s then 1 else 0) + 1
-       + Cv env.cap (env.sel (causeOf s)) s.P s.now
+       + Cv env.cap (selOf env s) s.P s.now
 
 /-- Upper bound on the number of further turns of the loop. A function of the state only. -/
 def bound (env : Env) (s : State E) : Nat :=
